@@ -145,10 +145,17 @@ TFreeRunEnd ==
   /\ LET acc == Line.accepted
          del == Items(Line.flat)
      IN nviol' = nviol
-          + Soft("OnceInOrder", InOrderOnce(acc, del), <<"end", acc, del>>)
+          + (IF Has("prodret") THEN 0
+             ELSE Soft("OnceInOrder", InOrderOnce(acc, del), <<"end", acc, del>>)
+                  + Soft("FlushOnClose", Line.closed => AllDelivered(acc, del), <<"end", acc, del>>))
           + Soft("BatchBound", Line.maxbatch <= MaxBatch, <<"end", Line.maxbatch>>)
           + Soft("SameKey", Line.keysok, "end")
-          + Soft("FlushOnClose", Line.closed => AllDelivered(acc, del), <<"end", acc, del>>)
+          \* a flood against a stalled broker (judged on counts, the item list is not logged)
+          + (IF Has("prodret")
+               THEN Soft("ProducersNeverWaitForBroker", Line.prodret, <<"end", "stalled broker">>)
+                    + Soft("OnceInOrder", Line.inorder /\ \A p \in DOMAIN Line.ndel : Line.ndel[p] <= acc[p], <<"end", acc, Line.ndel>>)
+                    + Soft("FlushOnClose", Line.closed => \A p \in DOMAIN acc : Line.ndel[p] = acc[p], <<"end", acc, Line.ndel>>)
+               ELSE 0)
   /\ l' = l + 1 /\ UNCHANGED <<vars, mode, scn, macc, mdel>>
 
 TraceInit ==
